@@ -40,6 +40,9 @@ sim::Json generate(const std::string& tier, uint64_t seed, uint64_t index) {
     if (rng.chance(0.2)) sc.ref("argv").arr().insert(sc.ref("argv").arr().begin() + 1, sim::Json("-e"));
   }
 
+  // tuning knob: size of the stdio buffers of the simulated process (small: the .sol is flushed in many pieces)
+  if (rng.chance(0.35)) { static const int bs[] = {1, 16, 64, 200, 1024}; sc.set("stdio_bufsize", bs[rng.below(5)]); }
+
   // names files
   if (go.want_names) {
     int nm = 1 + (int)rng.below(NAMES_MODES - 1);
@@ -50,12 +53,20 @@ sim::Json generate(const std::string& tier, uint64_t seed, uint64_t index) {
   // damaged NL
   if (rng.chance(0.08)) {
     std::string nl = sc["files"]["stub.nl"].as_str();
-    int k = (int)rng.below(5);
+    int k = (int)rng.below(7);
+    if (k >= 5) {
+      // a function is used but its declaration is missing (k==5) / given twice (k==6)
+      size_t p = sc["nl_binary"].as_bool() ? std::string::npos : nl.find("\nF0 ");
+      if (p != std::string::npos) {
+        size_t q = nl.find('\n', p + 1);
+        if (k == 5) nl.erase(p, q - p); else nl.insert(q, nl.substr(p, q - p));
+      } else k = 0;
+    }
     if (k == 0 && nl.size() > 4) nl.resize(rng.below(nl.size()));
     else if (k == 1 && !nl.empty()) nl[rng.below(nl.size())] = (char)rng.below(256);
     else if (k == 2) { size_t p = nl.find('\n', rng.below(nl.size())); if (p != std::string::npos) { size_t q = nl.find('\n', p + 1); if (q != std::string::npos) nl.erase(p, q - p); } }
     else if (k == 3) { size_t p = nl.find("\n ", 0); if (p != std::string::npos) nl.replace(p + 2, 1, "99999999"); }
-    else nl = "";
+    else if (k == 4) nl = "";
     sc.ref("files").set("stub.nl", nl);
     label = "MALFORMED";
   }
@@ -76,6 +87,8 @@ sim::Json generate(const std::string& tier, uint64_t seed, uint64_t index) {
   // an option may make a clean model end differently (sol:chk:fail, feasrelax, ...): only plain options keep the strict label
   for (auto& o : opts) if (o.compare(0, 4, "acc:") != 0 && o != "tech:timing=1" && o.compare(0, 8, "sol:chk:mode") != 0 && label == "LINEAR_CLEAN") label = "LINEAR_OPTS";
   if (rng.chance(0.03)) { static const char* base[] = {"acc:linle=0", "acc:lineq=0", "acc:linge=0"}; opts.push_back(base[rng.below(3)]); if (label == "LINEAR_CLEAN" || label == "LINEAR_OPTS") label = "GENERAL"; }
+  // -AMPL decides that a .sol is written; a wantsol option given as well (any value, any source) must not take that away
+  if (ampl && rng.chance(0.25)) opts.push_back("wantsol=" + std::to_string((int)rng.range(0, 15)));
   rng.shuffle(opts);
   place_options(rng, sc, opts);
 
@@ -116,7 +129,7 @@ sim::Json generate(const std::string& tier, uint64_t seed, uint64_t index) {
     for (int i = 0; i < nf; ++i) {
       sim::FaultOp f;
       int k = (int)rng.below(20);
-      if (k < 4) { f.role = "sol"; f.op = "fwrite"; f.k = (int)rng.below(3); static const char* kd[] = {"SHORT", "SHORT", "ENOSPC", "EIO"}; f.kind = kd[rng.below(4)]; f.param = (long)rng.range(0, 300); }
+      if (k < 4) { f.role = "sol"; f.op = "fwrite"; f.k = (int)rng.below(sc.has("stdio_bufsize") ? 14 : 3); static const char* kd[] = {"SHORT", "SHORT", "ENOSPC", "EIO"}; f.kind = kd[rng.below(4)]; f.param = (long)rng.range(0, 300); }
       else if (k < 6) { f.role = "sol"; f.op = "fopen"; f.k = (int)rng.below(2); static const char* kd[] = {"EACCES", "ENOSPC", "EMFILE", "ENOENT"}; f.kind = kd[rng.below(4)]; }
       else if (k < 9) { f.role = "sol"; f.op = "fclose"; f.k = (int)rng.below(2); static const char* kd[] = {"ENOSPC", "EIO"}; f.kind = kd[rng.below(2)]; }
       else if (k < 11) { f.role = "nl"; f.op = "open"; f.k = 0; static const char* kd[] = {"ENOENT", "EACCES", "EINTR", "EMFILE"}; f.kind = kd[rng.below(4)]; }
@@ -251,7 +264,41 @@ void judge(const sim::Json& sc, const RunRecord& rec, sim::RunResult& r) {
   if (!viol.empty()) { r.verdict = viol; r.sig = "C09:" + viol + ":" + key; r.detail = detail; }
 }
 
-Property prop = {"C09", generate, nullptr, judge, nullptr};
+// A write fault that the run survives (exit status 0, the solver's own code in the .sol) must have left the
+// complete file: it is compared byte for byte with the file the same scenario writes without its .sol faults.
+// (A hole in the free text of the message keeps the file well-formed, so parsing alone cannot see it.)
+sim::RunResult run(const sim::Json& sc) {
+  sim::RunResult r;
+  RunRecord rec = run_driver(sc);
+  fill_result(rec, r);
+  judge(sc, rec, r);
+  if (::getenv("VERIF_DUMP")) dump_record(rec);
+  bool sol_write_fault = false; std::string fk;
+  for (auto& f : rec.faults) if (f.fired && f.role == "sol" && (f.op == "fwrite" || f.op == "fclose")) { sol_write_fault = true; fk = f.role + "." + f.op + "." + f.kind; break; }
+  auto it = rec.files_after.find("stub.sol");
+  if (r.verdict == "OK" && sol_write_fault && it != rec.files_after.end() && rec.exit_status() == 0 && !rec.step_budget_exceeded) {
+    sim::Json twin = sc;
+    sim::Json keep = sim::Json::array();
+    for (auto& fj : sc["faults"].arr()) if (fj["role"].as_str() != "sol") keep.push(fj);
+    twin.set("faults", keep);
+    RunRecord ref = run_driver(twin);
+    auto jt = ref.files_after.find("stub.sol");
+    r.stats.set("probe.survived_sol_write_fault_compared", 1);
+    // an error report written instead (other solve code, 'cannot write ...') is a diagnosed failure, not a hole
+    oracle::SolFile sa = oracle::parse_sol(it->second), sb = jt != ref.files_after.end() ? oracle::parse_sol(jt->second) : oracle::SolFile();
+    const std::string am = sa.ok ? sa.message_text() : std::string();
+    const bool diagnosed = am.find("cannot write file") != std::string::npos || am.find("cannot close file") != std::string::npos;
+    if (jt != ref.files_after.end() && ref.exit_status() == 0 && sa.ok && sb.ok && sa.code == sb.code && !diagnosed && jt->second != it->second) {
+      size_t d = 0; while (d < jt->second.size() && d < it->second.size() && jt->second[d] == it->second[d]) ++d;
+      r.verdict = "TRUNCATED_SOL"; r.sig = "C09:TRUNCATED_SOL:hole:" + fk;
+      r.detail = "a write error (" + fk + ") occurred while the .sol was written, the run ended with exit status 0, and the file (" + std::to_string(it->second.size()) +
+                 " bytes) differs from the one written without the fault (" + std::to_string(jt->second.size()) + " bytes) from byte " + std::to_string(d) + " on";
+    }
+  }
+  return r;
+}
+
+Property prop = {"C09", generate, nullptr, judge, run};
 DRVSIM_REGISTER(prop);
 
 }  // namespace
